@@ -344,7 +344,9 @@ impl Model for M {
                 }
             }
         }
-        let stub_pairs: Vec<(u8, u8)> = if self.thorough { alive.iter().flat_map(|a| alive.iter().filter(move |b| *b != a).map(move |b| (*a, *b))).collect() } else { vec![(3, 0), (0, 3), (2, 1)] };
+        // the stub API differs from create_edge only in what it skips; three pairs (a shortcut edge,
+        // a cycle-closing edge, a sibling edge) are enough to reach its invalidation call
+        let stub_pairs: Vec<(u8, u8)> = vec![(3, 0), (0, 3), (2, 1)];
         for (a, b) in stub_pairs {
             if r.alive.contains(&a) && r.alive.contains(&b) {
                 v.push(Op::AddIsAStub(a, b));
@@ -360,7 +362,7 @@ impl Model for M {
             v.push(Op::SetUnits(k, 2));
             v.push(Op::SetUnits(k, -1));
             v.push(Op::RemoveUnits(k));
-            if self.thorough || k == 1 {
+            if k == 1 || (self.thorough && k == 3) {
                 v.push(Op::SetUnitsNull(k));
                 v.push(Op::MergeUnits(k, 1));
             }
@@ -488,7 +490,8 @@ impl Model for M {
             for k in 0..NK {
                 let q = tmpl.replace("{K}", &k.to_string());
                 let got = run_read(&st.g, &q);
-                let twin = run_read(&st.t, &q);
+                // the twin's answer is not consulted for subsumes()-shapes while the index is usable
+                let twin = if is_subsumes && usable { Err("not run".to_string()) } else { run_read(&st.t, &q) };
                 let decl = if self.setup.reverse { "reversed-declaration" } else if !self.setup.part_of.is_empty() { "two-edge-types" } else if !self.setup.m_label.is_empty() { "label-restricted-measure" } else { "plain-declaration" };
                 let state = format!("{decl}:{}", if usable { "usable" } else { "unusable" });
                 if let Err(e) = &got {
@@ -580,7 +583,11 @@ pub fn run(ctx: &Ctx) {
     let depth = ctx.tier.pick(2, 3);
     let mut total = hx::Stats::default();
     for s in setups() {
-        let m = M { setup: s.clone(), thorough: ctx.tier == Tier::Thorough };
+        // the three declaration variants differ from "tree" only in how the index was declared:
+        // they get the smaller (quick) alphabet in both tiers, at the tier's depth
+        let variant = s.reverse || !s.part_of.is_empty() || !s.m_label.is_empty();
+        let m = M { setup: s.clone(), thorough: ctx.tier == Tier::Thorough && !variant };
+        let _ = variant;
         let stats = hx::explore(&m, depth, 20_000_000, |v| {
             ctx.violation(&v.sig, v.msg, json!({"kind": "manager", "setup": s.name, "history": v.history.iter().map(|o| format!("{:?}", o)).collect::<Vec<_>>()}));
         });
